@@ -35,7 +35,7 @@ class C15(C06):
         g = resgen.GR(rng, depth=rng.choice([1, 2]))
         res = plural + g.resource()
         th = rng.choice([2, 4, 8])
-        cfgbase = "iso=%d;tr=%s;fm=%s;fl=conc;loc=%s" % (rng.randrange(2), rng.choice(["none", "upper"]),
+        cfgbase = "iso=%d;tr=%s;fm=%s;fl=conc;loc=%s" % (rng.randrange(2), rng.choice(["none", "upper", "pseudo", "pseudo"]),
                                                          rng.choice(["none", "numbr"]), rng.choice(["en", "en-US"]))
         reqs = []
         for m in ["p0", "p1", "p2", "p3", "p4", "p4"] + resgen.MSGS:
